@@ -1,5 +1,6 @@
 """C04 -- stacking concatenates in order and inverts splitting (bounded)."""
 import itertools
+import os
 from .common import *   # noqa
 
 import z3
@@ -159,6 +160,105 @@ class Stack(Contract):
 
 CONTRACTS = [Stack(2), Stack(3), Stack(2, other_is_list=False)]
 
+GRD = '_getreader.py'
+
+
+class OpenRecorder(Contract):
+    """summary of pncopen used while verifying the multi-file opener: returns a distinct file object per call and records the
+    order of the calls (what pncopen itself does is C15's business)"""
+    prop = 'C04'
+    target = GRD + '::pncopen'
+
+    def apply(self, I, func, args, kwargs):
+        from pyvc.exec import Obj
+        calls = I.ctx.ghost.setdefault('opened', [])
+        f = Obj(None, {}, tag='opened#%d' % len(calls))
+        f.attrs['stack'] = I_native_stack(I, f)
+        calls.append((args[0], f, dict(kwargs), tuple(args[1:])))
+        return f
+
+
+def I_native_stack(I, me):
+    from pyvc import models
+
+    def stack(I2, a, kw):
+        I2.ctx.ghost.setdefault('stacked', []).append((me, list(a), dict(kw)))
+        from pyvc.exec import Opaque
+        r = Opaque('stack-result')
+        I2.ctx.ghost['stack_result'] = r
+        return r
+    return models.native(stack)
+
+
+class MultiFileOpen(Contract):
+    """pncmfopen(paths, stackdim=d): every path is opened exactly once, in ARGUMENT order, with the given keywords; the first
+    file stacks the others, in argument order, along d; that result is returned"""
+    prop = 'C04'
+    target = GRD + '::pncmfopen'
+    uses = [OpenRecorder()]
+
+    def __init__(self, n):
+        self.n = n
+        self.name = 'pncmfopen[%d paths]' % n
+
+    def inputs(self, ctx, I):
+        from pyvc.arrays import AbsStr
+        self.paths = [AbsStr(ctx.fresh('path%d' % i)) for i in range(self.n)]
+        self.dim = AbsStr(ctx.fresh('stackdim'))
+        return dict(paths=list(self.paths), stackdim=self.dim, kwds=dict(format='netcdf'))
+
+    def call_args(self, inp):
+        return [inp['paths']], dict(stackdim=inp['stackdim'], **inp['kwds'])
+
+    def ensures(self, inp, res, I):
+        opened = I.ctx.ghost.get('opened', [])
+        stacked = I.ctx.ghost.get('stacked', [])
+        ok_open = len(opened) == self.n and all(o[0] is p for o, p in zip(opened, self.paths))
+        out = [('every path opened once, in argument order', ok_open),
+               ('keywords passed to every open', all(o[2] == dict(format='netcdf') and o[3] == () for o in opened))]
+        if not ok_open or len(stacked) != 1:
+            return out + [('stacked exactly once', len(stacked) == 1)]
+        me, a, kw = stacked[0]
+        others = a[0] if a else kw.get('other')
+        return out + [('stacked exactly once', True),
+                      ('the first file stacks', me is opened[0][1]),
+                      ('the other files in argument order', isinstance(others, list) and len(others) == self.n - 1 and all(x is o[1] for x, o in zip(others, opened[1:]))),
+                      ('along the given dimension', (kw.get('stackdim') if 'stackdim' in kw else (a[1] if len(a) > 1 else None)) is self.dim),
+                      ('returns the stacked file', res is I.ctx.ghost.get('stack_result'))]
+
+
+    def concretize(self, model, inp):
+        return dict(n=self.n)
+
+    def concretize_without_model(self, inp):
+        return dict(n=self.n)
+
+    def replay(self, c):
+        """real files whose alphabetical order differs from the argument order, through the real pncmfopen"""
+        import numpy as np
+        import tempfile, shutil, netCDF4
+        import_real()
+        from PseudoNetCDF import pncmfopen
+        names = ['piece_9.nc', 'piece_10.nc', 'a_last.nc', 'zz.nc'][:max(2, int(c['n']))]
+        d = tempfile.mkdtemp(prefix='verif_c04_')
+        try:
+            paths, exp = [], []
+            for k, nm in enumerate(names):
+                p = os.path.join(d, nm)
+                ds = netCDF4.Dataset(p, 'w', format='NETCDF3_CLASSIC')
+                ds.createDimension('t', None)
+                ds.createVariable('t', 'd', ('t',))[:] = [10. * k, 10. * k + 1]
+                ds.close()
+                paths.append(p)
+                exp += [10. * k, 10. * k + 1]
+            got = np.asarray(pncmfopen(paths, stackdim='t', format='netcdf').variables['t'][:]).tolist()
+            return got == exp, dict(paths=[os.path.basename(p) for p in paths], stacked_t=got, expected=exp)
+        finally:
+            shutil.rmtree(d, ignore_errors=True)
+
+
+CONTRACTS += [MultiFileOpen(2), MultiFileOpen(4)]
+
 
 def compositions(n, kmax):
     """all ways to write n as an ordered sum of 1..kmax positive parts"""
@@ -306,10 +406,12 @@ def bounded_replay(p):
 META = dict(
     level='other',
     technique='stack proved by pyvc for 2 and 3 files of arbitrary sizes (numpy.ma.concatenate as trusted end-to-end model), with the split/stack inverse as a '
-              'corollary of the contract; masks, attributes of pieces, stack_files / pncmfopen and slice(stack) by bounded run-time contract',
+              'corollary of the contract; pncmfopen proved to open its paths and stack them in argument order (modular: pncopen / stack as recording summaries); '
+              'masks, attributes of pieces, stack_files / open_mfdataset and slice(stack) by bounded run-time contract',
     text='Proved for 2 or 3 files whose stack dimension has ANY lengths (including 0) and a shared dimension of any length: the stacked length is the sum, every element of '
          'every variable with the dimension is the corresponding piece element in ARGUMENT ORDER, variables without it come from the first file, attributes and flags '
-         'carried, fresh buffers, all inputs unchanged; corollary: stacking consecutive pieces of one array reproduces the array. Bounded: stack(split(f)) = f over all '
+         'carried, fresh buffers, all inputs unchanged; corollary: stacking consecutive pieces of one array reproduces the array; pncmfopen (2 and 4 paths, arbitrary path '
+         'strings): every path is opened once in argument order and the first file stacks the others in argument order along the given dimension. Bounded: stack(split(f)) = f over all '
          'compositions, slice(stack) = piece, concatenation oracle, masked variables, stack_files and pncmfopen.',
     note='numpy.ma.concatenate is a trusted model (pieces end to end); more than 3 files, masks and the multi-file openers are bounded only.',
     assumptions=['numpy.ma.concatenate lays the pieces end to end along the axis (trusted model; also the oracle of the bounded part)'],
